@@ -87,6 +87,13 @@ theorem C01_search_faithful (ext : Nat → Bytes → Bool) (tt : UInt8) (htt : t
   simp only [expected, Outcome.ok.injEq, Msg.search.injEq] at h
   exact Filter.render_injective f g wf wg h.2.2.2.2.2.2.2.1
 
+/-- the repair 374d8a1 is conservative: over ALL element trees (hostile ones included), whatever string the pre-fix
+    source decompiled a filter element to, the repaired source decompiles it to as well - it only turns errors into
+    answers (the `:dn` filters) -/
+theorem C01_filter_fix_conservative (n : Node) (s : Bytes) (h : Filter.decompile false n = some s) :
+    Filter.decompile true n = some s :=
+  Filter.decompile_mono n s h
+
 /-- "(cn:dn:=foo)" -/
 def exDnFilter : Filter.Filter := .ext none (some [99, 110]) [102, 111, 111] true
 
